@@ -227,6 +227,13 @@ func (a *analyzer) scope(ss ast.SelectionSet, parent *ast.Definition, depth int,
 				a.set["op.variables"] = true
 			}
 			a.values(arg.Value, 0)
+			if f.Definition != nil && arg.Value != nil && arg.Value.Kind != ast.Variable {
+				if ad := f.Definition.Arguments.ForName(arg.Name); ad != nil && ad.Type != nil {
+					if d := a.schema.Types[ad.Type.Name()]; d != nil && d.Kind == ast.Scalar && !d.BuiltIn && hasVariable(arg.Value) {
+						a.set["op.variableInCustomScalarLiteral"] = true
+					}
+				}
+			}
 		}
 		a.inRootArgs = false
 		if f.Name != "__typename" {
@@ -608,4 +615,19 @@ func (a *analyzer) interfaceSpread(f *ast.Field, def, parent *ast.Definition) {
 			a.set["op.interfaceCrossServiceComplex"] = true
 		}
 	}
+}
+
+func hasVariable(v *ast.Value) bool {
+	if v == nil {
+		return false
+	}
+	if v.Kind == ast.Variable {
+		return true
+	}
+	for _, c := range v.Children {
+		if hasVariable(c.Value) {
+			return true
+		}
+	}
+	return false
 }
